@@ -1,7 +1,10 @@
 import DoviModel.Model.RpuFile
+import DoviModel.Proofs.RpuFileProof
+import DoviModel.Model.Generate
+import DoviModel.Proofs.Rpu
 /-! # C14 — reading an RPU file returns exactly the RPUs written, or an error (theorems; extended in Proofs/) -/
 namespace Dovi.C14
-open Dovi Dovi.RpuFile
+open Dovi Dovi.RpuFile Dovi.RpuFileProof
 
 /-- a successful read returned exactly as many RPUs as start codes were counted: no entry was dropped -/
 theorem ok_count (c : Nat) (file : Bytes) (rs : List Rpu) (h : parseRpuFile c file = .ok rs) : rs ≠ [] := by
@@ -30,5 +33,370 @@ theorem no_start_code_bails (c : Nat) (s : St) (h : findSC4 0 (s.chunk ++ s.rest
     (match step c s with | .bail => true | _ => false) = true := by
   unfold step
   simp only [hne, if_false, h, List.getLast?_nil, Bool.false_eq_true]
+
+
+/-!
+## The written file, its framing, and the chunked reader (helper lemmas: `Proofs/RpuFileProof.lean`)
+
+`write_rpu_file` (`src/dovi/mod.rs`) writes, for every RPU, the 4-byte start code `00 00 00 01` followed by the
+escaped payload `19 …` (the encoded NAL without its `7C 01` header): `renderFile`. The reader
+(`parse_rpu_file`, model `parseRpuFile c`, real code `c = 100000`) scans each chunk for `00 00 00 01`
+(`findSC4`), hands the slice from each start code to the next one to `parse_unspec62_nalu` (`parseNalu`, which
+accepts the `00 00 00 01 19 …` form) and carries the last, possibly incomplete, slice into the next chunk.
+
+**Trailing zero bytes.** An entry may end in any number of `00` bytes (`… 80 00 | 00 00 00 01`): the 4-byte
+pattern can only match where its last byte is `01`, so the start code is found at its true position and the
+zero bytes stay with the entry in front of it (`written_file_slices`). The reader's `size - 1` adjustment
+("if the 4 bytes beginning one byte before the next offset are a start code") can never fire, because two start
+codes cannot begin at adjacent positions (`size_minus_one_branch_dead`) — the model omits it. The only
+hypothesis on entry contents is `NoSC`: no `00 00 00 01` inside an entry, true of every escaped payload
+(`escaped_rpu_noSC`).
+-/
+
+/-- the file `write_rpu_file` writes for the given escaped payloads -/
+theorem renderFile_def (entries : List Bytes) :
+    renderFile entries = entries.flatMap (fun e => [0, 0, 0, 1] ++ e) := rfl
+
+/-- `NoSC e`: the scan finds no `00 00 00 01` in `e` -/
+theorem noSC_def (e : Bytes) : NoSC e ↔ findSC4 0 e = [] := Iff.rfl
+
+/-- every escaped RPU payload (first byte `0x19`), whatever its content and trailing zero bytes, is free of
+`00 00 00 01` -/
+theorem escaped_rpu_noSC (xs : Bytes) : NoSC (Esc.escape (0x19 :: xs)) :=
+  noSC_escape 0x19 xs (by decide)
+
+/-- the `size - 1` branch of the reader is dead code: if a start code begins at `b+1` none begins at `b` -/
+theorem size_minus_one_branch_dead (chunk : Bytes) (b : Nat) (h : (chunk.drop (b+1)).take 4 = [0, 0, 0, 1]) :
+    (chunk.drop b).take 4 ≠ [0, 0, 0, 1] :=
+  adjacent_start_codes_impossible chunk b h
+
+/-- the start codes found in a written file are exactly the entry starts — entries may end in zero bytes -/
+theorem written_file_start_codes (entries : List Bytes) (hsc : ∀ e ∈ entries, NoSC e) :
+    findSC4 0 (renderFile entries) = starts 0 entries := by
+  simpa using findSC4_structured (pre := []) noSC_nil hsc
+
+/-- … and the slices between consecutive start codes (the last one up to the end of the file) are exactly
+the written entries, each with its start code and all of its trailing zero bytes -/
+theorem written_file_slices (entries : List Bytes) (hsc : ∀ e ∈ entries, NoSC e) :
+    sl (renderFile entries) (findSC4 0 (renderFile entries)) (renderFile entries).length
+      = entries.map (fun e => [0, 0, 0, 1] ++ e) := by
+  rw [written_file_start_codes entries hsc]
+  simpa using sl_structured [] entries
+
+/-! ### 1. round trip, for every sufficient chunk size -/
+
+/-- the per-entry parse results as a function of the entry -/
+theorem parse_fun (entries : List Bytes) (rpus : List Rpu)
+    (hparse : entries.map (fun e => parseNalu ([0, 0, 0, 1] ++ e)) = rpus.map .ok) :
+    ∃ f : Bytes → Rpu, (∀ e ∈ entries, parseNalu (blk e) = .ok (f e)) ∧ entries.map f = rpus := by
+  cases rpus with
+  | nil =>
+    cases entries with
+    | nil => exact ⟨fun _ => default, by simp, rfl⟩
+    | cons a b => simp at hparse
+  | cons dflt rest =>
+    let f : Bytes → Rpu := fun e => match parseNalu (blk e) with | .ok r => r | _ => dflt
+    have hf : ∀ e ∈ entries, parseNalu (blk e) = .ok (f e) := by
+      intro e he
+      have hm : parseNalu ([0, 0, 0, 1] ++ e) ∈ (dflt :: rest).map Res.ok := by
+        rw [← hparse]; exact List.mem_map.mpr ⟨e, he, rfl⟩
+      obtain ⟨r, _, hr⟩ := List.mem_map.mp hm
+      have hr' : parseNalu (blk e) = .ok r := hr.symm
+      simp only [f, hr']
+    refine ⟨f, hf, ?_⟩
+    have : (entries.map f).map Res.ok = (dflt :: rest).map Res.ok := by
+      rw [← hparse, List.map_map]
+      apply List.map_congr_left
+      intro e he
+      exact (hf e he).symm
+    exact (List.map_inj_right (fun x y h => by injection h)).mp this
+
+/-- **C14, round trip.** For every list of entries (any count, any sizes, any trailing zero bytes) that contain
+no `00 00 00 01` and parse to `rpus`, and every read chunk size `c` such that the first read contains the whole
+file or at least the first entry and the next start code (`c ≥ |e₀| + 8`; the real `c` is 100000), reading the
+written file returns exactly `rpus`: same RPUs, same order, none dropped, duplicated, merged or truncated —
+however many chunks the file spans and wherever the chunk boundaries fall relative to the start codes.
+
+Why the bound: a full first read that holds only one complete start code leaves no parsed RPU after the last
+offset has been set aside for the next chunk, and the reader gives up with "No valid RPUs parsed for chunk"
+(with less than 4 bytes: "No NALU start codes found in chunk"); see `small_first_chunk_is_error`. After the
+first iteration no bound is needed: a chunk with only the carried start code just keeps accumulating. -/
+theorem roundtrip (c : Nat) (entries : List Bytes) (rpus : List Rpu) (e0 : Bytes)
+    (hhead : entries.head? = some e0) (hsc : ∀ e ∈ entries, NoSC e)
+    (hparse : entries.map (fun e => parseNalu ([0, 0, 0, 1] ++ e)) = rpus.map .ok)
+    (hc : e0.length + 8 ≤ c ∨ (renderFile entries).length < c) :
+    parseRpuFile c (renderFile entries) = .ok rpus := by
+  obtain ⟨f, hf, rfl⟩ := parse_fun entries rpus hparse
+  exact parseRpuFile_render_ok c f entries e0 hhead hsc hf hc
+
+/-- the bound of `roundtrip` is sharp: if the first read neither contains the whole file nor the first entry
+and the complete next start code, the read fails (with an error, never a wrong list) — whatever the entries
+contain -/
+theorem small_first_chunk_is_error (c : Nat) (entries : List Bytes) (e0 : Bytes)
+    (hhead : entries.head? = some e0) (hsc : ∀ e ∈ entries, NoSC e)
+    (hc1 : c < e0.length + 8) (hc2 : c ≤ (renderFile entries).length) :
+    parseRpuFile c (renderFile entries) = .error :=
+  parseRpuFile_render_small c entries e0 hhead hsc hc1 hc2
+
+/-- hence for *every* chunk size: the written list, or an error -/
+theorem roundtrip_or_error (c : Nat) (entries : List Bytes) (rpus : List Rpu)
+    (hsc : ∀ e ∈ entries, NoSC e)
+    (hparse : entries.map (fun e => parseNalu ([0, 0, 0, 1] ++ e)) = rpus.map .ok) :
+    parseRpuFile c (renderFile entries) = .ok rpus ∨ parseRpuFile c (renderFile entries) = .error := by
+  cases entries with
+  | nil => exact Or.inr (empty_file_is_error c)
+  | cons e0 es =>
+    by_cases hc : e0.length + 8 ≤ c ∨ (renderFile (e0 :: es)).length < c
+    · exact Or.inl (roundtrip c _ rpus e0 rfl hsc hparse hc)
+    · exact Or.inr (small_first_chunk_is_error c _ e0 rfl hsc (by omega) (by omega))
+
+/-- oddity of the real reader (consequence of `small_first_chunk_is_error`): a file that consists of a single
+entry and is exactly one chunk long is rejected, valid or not -/
+theorem single_entry_file_of_exactly_one_chunk_is_error (e : Bytes) (hsc : NoSC e) :
+    parseRpuFile (e.length + 4) (renderFile [e]) = .error :=
+  small_first_chunk_is_error _ [e] e rfl (by simpa using hsc) (by omega)
+    (by rw [renderFile_length_cons]; simp)
+
+/-- oddity: bytes in front of the first start code (free of `00 00 00 01`) are ignored without any message -/
+theorem leading_bytes_ignored (c : Nat) (pre : Bytes) (entries : List Bytes) (rpus : List Rpu) (e0 : Bytes)
+    (hhead : entries.head? = some e0) (hpre : NoSC pre) (hsc : ∀ e ∈ entries, NoSC e)
+    (hparse : entries.map (fun e => parseNalu ([0, 0, 0, 1] ++ e)) = rpus.map .ok)
+    (hc : pre.length + e0.length + 8 ≤ c ∨ (pre ++ renderFile entries).length < c) :
+    parseRpuFile c (pre ++ renderFile entries) = .ok rpus := by
+  obtain ⟨f, hf, rfl⟩ := parse_fun entries rpus hparse
+  exact parseRpuFile_pre_render_ok c f pre entries e0 hhead hpre hsc hf hc
+
+/-! ### 2. never silently wrong: every chunk size, any file content -/
+
+/-- **C14, a successful read is the parse of the whole file.** For every chunk size and every byte string:
+if the read succeeds, the returned list is — in order — the parse of every slice between consecutive start
+codes of the whole file (the last one up to the end of the file), each of which parsed successfully. No entry
+is dropped, duplicated, merged with its neighbour or cut at a chunk boundary. -/
+theorem ok_is_whole_file_parse (c : Nat) (file : Bytes) (rs : List Rpu) (h : parseRpuFile c file = .ok rs) :
+    (sl file (findSC4 0 file) file.length).map parseNalu = rs.map .ok :=
+  parseRpuFile_ok_whole c file rs h
+
+/-- … in particular exactly as many RPUs as there are start codes in the file -/
+theorem ok_count_exact (c : Nat) (file : Bytes) (rs : List Rpu) (h : parseRpuFile c file = .ok rs) :
+    rs.length = (findSC4 0 file).length := by
+  have := congrArg List.length (ok_is_whole_file_parse c file rs h)
+  simpa using this.symm
+
+/-- for a written file: a successful read (any chunk size) returns, entry by entry, the parse of what was
+written -/
+theorem ok_read_of_written_is_exact (c : Nat) (entries : List Bytes) (rs : List Rpu)
+    (hsc : ∀ e ∈ entries, NoSC e) (h : parseRpuFile c (renderFile entries) = .ok rs) :
+    entries.map (fun e => parseNalu ([0, 0, 0, 1] ++ e)) = rs.map .ok := by
+  have := ok_is_whole_file_parse c _ rs h
+  rw [written_file_slices entries hsc, List.map_map] at this
+  exact this
+
+/-! ### 3. errors are complete -/
+
+/-- **C14, an invalid entry makes the read fail** — at the first, a middle or the last position, in the first
+or a later chunk, for every chunk size: if some written entry does not parse, the result is not `.ok`. -/
+theorem invalid_entry_is_error (c : Nat) (entries : List Bytes) (hsc : ∀ e ∈ entries, NoSC e)
+    (e : Bytes) (he : e ∈ entries) (hbad : ∀ r, parseNalu ([0, 0, 0, 1] ++ e) ≠ .ok r) :
+    ∀ rs, parseRpuFile c (renderFile entries) ≠ .ok rs := by
+  intro rs h
+  have h1 := ok_read_of_written_is_exact c entries rs hsc h
+  have hm : parseNalu ([0, 0, 0, 1] ++ e) ∈ rs.map Res.ok := by
+    rw [← h1]; exact List.mem_map.mpr ⟨e, he, rfl⟩
+  obtain ⟨r, _, hr⟩ := List.mem_map.mp hm
+  exact hbad r hr.symm
+
+/-- a file without any start code is an error, for every chunk size (the empty file: `empty_file_is_error`) -/
+theorem no_start_code_is_error (c : Nat) (file : Bytes) (h : findSC4 0 file = []) :
+    ∀ rs, parseRpuFile c file ≠ .ok rs := by
+  intro rs hok
+  have h1 := ok_count_exact c file rs hok
+  rw [h] at h1
+  exact ok_count c file rs hok (List.eq_nil_of_length_eq_zero h1)
+
+/-! ### 4. chunk-size independence -/
+
+/-- any two chunk sizes that both succeed — on any file content — return the same list -/
+theorem chunk_size_independent (c c' : Nat) (file : Bytes) (rs rs' : List Rpu)
+    (h : parseRpuFile c file = .ok rs) (h' : parseRpuFile c' file = .ok rs') : rs = rs' := by
+  have h1 := ok_is_whole_file_parse c file rs h
+  have h2 := ok_is_whole_file_parse c' file rs' h'
+  rw [h1] at h2
+  exact (List.map_inj_right (fun x y h => by injection h)).mp h2
+
+/-- on a written file, all chunk sizes satisfying the bound of `roundtrip` agree on success and on the result -/
+theorem chunk_size_independent_written (c c' : Nat) (entries : List Bytes) (e0 : Bytes)
+    (hhead : entries.head? = some e0) (hsc : ∀ e ∈ entries, NoSC e)
+    (hc : e0.length + 8 ≤ c ∨ (renderFile entries).length < c)
+    (hc' : e0.length + 8 ≤ c' ∨ (renderFile entries).length < c') (rs : List Rpu) :
+    parseRpuFile c (renderFile entries) = .ok rs ↔ parseRpuFile c' (renderFile entries) = .ok rs := by
+  constructor
+  · intro h
+    exact roundtrip c' entries rs e0 hhead hsc (ok_read_of_written_is_exact c entries rs hsc h) hc'
+  · intro h
+    exact roundtrip c entries rs e0 hhead hsc (ok_read_of_written_is_exact c' entries rs hsc h) hc
+
+
+/-! ### the writer side: what `write_rpu_file` writes for in-memory RPUs satisfies the hypotheses -/
+
+/-- the encoded payload of an RPU starts with the prefix byte `0x19` -/
+theorem writeRpu_head (r : Rpu) (out : Bytes) (hw : writeRpu r = .ok out) (hwf : RpuWf r) :
+    ∃ xs, out = 0x19 :: xs := by
+  unfold writeRpu at hw
+  split at hw
+  · cases hw
+  · cases hb : writeBody r with
+    | error => simp [hb, Res.bind] at hw
+    | panic => simp [hb, Res.bind] at hw
+    | ok body =>
+      obtain ⟨hbits, mbits, dbits, _, _, _, rfl⟩ := writeBody_parts r body hwf hb
+      simp only [hb, Res.bind] at hw
+      split at hw
+      · cases hw
+      · injection hw with hw
+        have h25 : toBits 8 25 = [false, false, false, true, true, false, false, true] := by decide
+        rw [h25] at hw
+        simp only [List.cons_append, List.nil_append, bitsToBytes] at hw
+        exact ⟨_, hw.symm⟩
+
+/-- the reader's slice of a written entry (`00 00 00 01` ++ escaped payload, at least 25 bytes) is unescaped
+back to the payload, trailing zero bytes included, and parsed -/
+theorem parseNalu_blk_escape (xs : Bytes) (hlen : 21 ≤ (Esc.escape (0x19 :: xs)).length) :
+    parseNalu ([0, 0, 0, 1] ++ Esc.escape (0x19 :: xs)) = parseRpu (0x19 :: xs) := by
+  have hu : Esc.unescape (Esc.escape (0x19 :: xs)) = 0x19 :: xs := by
+    simp only [Esc.escape, Esc.unescape]
+    simp [Esc.esc, Esc.unesc]
+    exact Esc.unesc_esc 1 0 xs (by omega)
+  have he : Esc.escape (0x19 :: xs) = 0x19 :: Esc.esc 1 0 xs := by
+    simp [Esc.escape, Esc.esc]
+  unfold parseNalu
+  rw [he] at hlen hu ⊢
+  have ht : trimPrefix ([0, 0, 0, 1] ++ 0x19 :: Esc.esc 1 0 xs) = .ok (0x19 :: Esc.esc 1 0 xs) := by
+    unfold trimPrefix
+    simp only [List.cons_append, List.nil_append, List.length_cons] at hlen ⊢
+    rw [if_neg (by omega)]
+    simp
+  rw [ht]
+  simp only [Res.bind]
+  rw [hu]
+
+/-- the CRC-32 field the parser reads back from an encoded payload -/
+def rereadCrc (out : Bytes) : Nat := match parseRpu out with | .ok r => r.rpu_data_crc32 | _ => 0
+
+/-- every entry `write_rpu_file` writes for an RPU of the parser's shape (`RpuWf`, `C03`) is free of start
+codes and is read back as that RPU (CRC field as written, `modified` cleared; for an unmodified RPU: the RPU
+itself) — provided the slice reaches the reader's minimum of 25 bytes -/
+theorem written_entry_parses (r : Rpu) (out : Bytes) (hw : writeRpu r = .ok out) (hwf : RpuWf r)
+    (hlen : 21 ≤ (Esc.escape out).length) :
+    NoSC (Esc.escape out) ∧
+    parseNalu ([0, 0, 0, 1] ++ Esc.escape out) = .ok { r with rpu_data_crc32 := rereadCrc out, modified := false } ∧
+    (r.modified = false → ({ r with rpu_data_crc32 := rereadCrc out, modified := false } : Rpu) = r) := by
+  obtain ⟨xs, rfl⟩ := writeRpu_head r out hw hwf
+  refine ⟨escaped_rpu_noSC xs, ?_⟩
+  rw [parseNalu_blk_escape xs hlen]
+  obtain ⟨crc, h1, h2⟩ := parseRpu_writeRpu r _ hw hwf
+  have hcrc : rereadCrc (0x19 :: xs) = crc := by simp [rereadCrc, h1]
+  rw [hcrc]
+  refine ⟨h1, ?_⟩
+  intro hm
+  rw [h2 hm]
+  cases r
+  simp_all
+
+/-- **C14 for written RPUs.** Any list of RPUs of the parser's shape, written by `write_rpu_file`, is read back
+as exactly that list (each with the CRC field as written and `modified` cleared), for every chunk size
+satisfying the bound of `roundtrip`. -/
+theorem written_rpus_roundtrip (c : Nat) (ws : List (Rpu × Bytes)) (p0 : Rpu × Bytes)
+    (hws : ∀ p ∈ ws, writeRpu p.1 = .ok p.2 ∧ RpuWf p.1 ∧ 21 ≤ (Esc.escape p.2).length)
+    (hhead : ws.head? = some p0)
+    (hc : (Esc.escape p0.2).length + 8 ≤ c ∨ (renderFile (ws.map fun p => Esc.escape p.2)).length < c) :
+    parseRpuFile c (renderFile (ws.map fun p => Esc.escape p.2))
+      = .ok (ws.map fun p => { p.1 with rpu_data_crc32 := rereadCrc p.2, modified := false }) := by
+  apply roundtrip c _ _ (Esc.escape p0.2) (by rw [List.head?_map, hhead]; rfl) _ _ hc
+  · intro e he
+    obtain ⟨p, hp, rfl⟩ := List.mem_map.mp he
+    obtain ⟨h1, h2, h4⟩ := hws p hp
+    exact (written_entry_parses p.1 p.2 h1 h2 h4).1
+  · rw [List.map_map, List.map_map]
+    apply List.map_congr_left
+    intro p hp
+    obtain ⟨h1, h2, h4⟩ := hws p hp
+    exact (written_entry_parses p.1 p.2 h1 h2 h4).2.1
+
+/-- … for unmodified RPUs: exactly the RPUs that were written -/
+theorem written_unmodified_rpus_roundtrip (c : Nat) (ws : List (Rpu × Bytes)) (p0 : Rpu × Bytes)
+    (hws : ∀ p ∈ ws, writeRpu p.1 = .ok p.2 ∧ RpuWf p.1 ∧ 21 ≤ (Esc.escape p.2).length)
+    (hm : ∀ p ∈ ws, p.1.modified = false)
+    (hhead : ws.head? = some p0)
+    (hc : (Esc.escape p0.2).length + 8 ≤ c ∨ (renderFile (ws.map fun p => Esc.escape p.2)).length < c) :
+    parseRpuFile c (renderFile (ws.map fun p => Esc.escape p.2)) = .ok (ws.map (·.1)) := by
+  rw [written_rpus_roundtrip c ws p0 hws hhead hc]
+  congr 1
+  apply List.map_congr_left
+  intro p hp
+  obtain ⟨h1, h2, h4⟩ := hws p hp
+  exact (written_entry_parses p.1 p.2 h1 h2 h4).2.2 (hm p hp)
+
+/-! ### non-vacuity -/
+
+/-- the generator's profile 8.1 CM v4.0 base RPU with an L6 block (the example of `C03`) -/
+def exRpu : Rpu :=
+  match Dovi.Gen.baseRpu { level6 := some [1000, 1, 1000, 400] } with
+  | .ok r => r
+  | _ => default
+
+set_option maxRecDepth 100000 in
+theorem exRpu_wf : RpuWf exRpu := RpuWf_of_B exRpu (by decide)
+
+/-- the bytes `write_rpu_data` emits for it -/
+def exOut : Bytes := match writeRpu exRpu with | .ok o => o | _ => []
+
+theorem exOut_written : writeRpu exRpu = .ok exOut := by
+  have h : (writeRpu exRpu).isOk = true := by decide
+  unfold exOut
+  cases hw : writeRpu exRpu with
+  | ok o => rfl
+  | error => rw [hw] at h; cases h
+  | panic => rw [hw] at h; cases h
+
+set_option maxRecDepth 100000 in
+theorem exOut_len : 21 ≤ (Esc.escape exOut).length := by decide
+
+/-- the hypotheses of `roundtrip` / `written_rpus_roundtrip` are satisfiable: a file of three written RPUs is
+read back as three RPUs for every admissible chunk size (several chunks for small `c`, one chunk for the real
+100000) -/
+example (c : Nat) (hc : (Esc.escape exOut).length + 8 ≤ c) :
+    parseRpuFile c (renderFile [Esc.escape exOut, Esc.escape exOut, Esc.escape exOut])
+      = .ok (List.replicate 3 { exRpu with rpu_data_crc32 := rereadCrc exOut, modified := false }) :=
+  written_rpus_roundtrip c (List.replicate 3 (exRpu, exOut)) (exRpu, exOut)
+    (by
+      intro p hp
+      rw [(List.mem_replicate.mp hp).2]
+      exact ⟨exOut_written, exRpu_wf, exOut_len⟩)
+    rfl (Or.inl hc)
+
+/-- … and with a chunk size below the bound the same file is an error, never a wrong list -/
+example : parseRpuFile ((Esc.escape exOut).length + 7)
+    (renderFile [Esc.escape exOut, Esc.escape exOut, Esc.escape exOut]) = .error := by
+  obtain ⟨hsc, _⟩ := written_entry_parses _ _ exOut_written exRpu_wf exOut_len
+  apply small_first_chunk_is_error _ _ (Esc.escape exOut) rfl
+  · intro e he
+    simp only [List.mem_cons, List.not_mem_nil, or_false, or_self] at he
+    rw [he]; exact hsc
+  · omega
+  · rw [renderFile_length_cons, renderFile_length_cons]; omega
+
+/-- entries ending in zero bytes directly in front of the next start code: found at the true positions, the
+zero bytes stay with their entry -/
+example : findSC4 0 (renderFile [[0x19, 0x80, 0, 0], [0x19, 0x80, 0], [0x19, 0x80]]) = [0, 8, 15] ∧
+    sl (renderFile [[0x19, 0x80, 0, 0], [0x19, 0x80, 0], [0x19, 0x80]]) [0, 8, 15] 21
+      = [[0, 0, 0, 1, 0x19, 0x80, 0, 0], [0, 0, 0, 1, 0x19, 0x80, 0], [0, 0, 0, 1, 0x19, 0x80]] := by
+  constructor
+  · simp [renderFile, findSC4_cons]
+  · simp [renderFile, sl]
+
+/-- `NoSC` is a real restriction on raw bytes (and the escaper establishes it) -/
+example : ¬ NoSC [0x19, 0, 0, 0, 1] ∧ NoSC (Esc.escape [0x19, 0, 0, 0, 1]) := by
+  refine ⟨?_, escaped_rpu_noSC _⟩
+  simp [NoSC, findSC4_cons]
 
 end Dovi.C14
